@@ -76,4 +76,16 @@ CHECKS = {
     text='Every str() of a value object is checked against the exact value rounded half-up at the display digits. All raw values in [-1300,1300] and within 3 of every carry/half-unit '
          'boundary are swept for precision, guard, display in 0..5 (complete for that sub-space); random magnitudes to 10^40; rational ties; every figure printed by report/dump/json of thousands of counts goes through the contract.',
     note='Known finding C14/guarded-p0-underscore. Negative exact ties: half-up and half-away-from-zero both accepted. Whether renderings use str() of the recorded value is checked by C18.'),
+ 'C15': dict(level='exploration', ref='DESIGN.md 3/C15',
+    technique='runtime monitoring, round-trip oracle: generated election structure -> adversarial well-formed BLT rendering -> real parser -> every public attribute compared with the structure; invariants of an accepted profile',
+    text='~180k feature-rich renderings per quick run (nicknames as references, [tie], -n/[withdrawn]/both, [undeclared], [droop], ballot ids, empty and all-withdrawn '
+         'ballots, equal ranks with withdrawn members, names with spaces/#/comment markers/non-ASCII/empty, source/comment, junk, nested and # comments incl. quoted words '
+         'inside comments and comments inside option lists, random layout, BOM via path=, 255/256/257 candidates) are parsed by the real ElectionProfile and compared attribute by attribute.',
+    note='Well-formedness is the grammar of DESIGN Appendix B; the renderer never emits forms outside it. Expectation model (withdrawn removal, dropped ballots, equal-rank demotion) is ~40 lines in vf/blt.py.'),
+ 'C16': dict(level='exploration', ref='DESIGN.md 3/C16',
+    technique='runtime monitoring with hostile inputs: complete prefix / single-token-mutation sets of seed files, token soups and arbitrary unicode fed to the real parser and the 11 constructors; outcome oracle {valid profile, ElectionProfileError}; CPU watchdog',
+    text='~1.6M texts per quick run: every token/character prefix and every single-token delete/duplicate/swap/replace/insert (70-token hostile alphabet) of 5 fixed and ~150 generated seed files '
+         '(complete per seed), plus soups, unicode and extreme headers. Any exception other than ElectionProfileError, any accepted profile breaking the invariants of a valid election, any '
+         'constructor failure on an accepted option-free profile, or a confirmed hang is a violation.',
+    note='Mutation sets are exhaustive per seed file only; the space of all strings is sampled. Budget overruns are re-run alone with 20x budget before being reported.'),
 }
